@@ -169,14 +169,18 @@ claim("C16", "proof",
       "Partial by nature: the regex crate is outside the model; slice-stability and 'greedy = runs of normal matches' are validated by testing, not proved for the real engine; "
       "anchors, look-around, empty matches, class ranges are outside the family.",
       "Lean 4 refinement theorems parametric in the matcher + oracle over an independent regex engine + matcher correspondence", "§4 C16")
-claim("C17", "other",
-      "Partial. Theorems bound what the MODEL retains: nothing of a chunk crosses a chunk boundary in the -M machine (retained_zero_at_chunk_end), the pending "
-      "piece grows by at most the byte read. The real allocator / Vec growth / BufReader are MEASURED: counting global allocator in the harness, synthetic "
-      "generator → engine (same 64 KiB BufReader/BufWriter as main) → sink, peak live heap for N, 16N, 256N must stay within 64 KiB; a control run shows the "
-      "documented growing case (buffered -l) is seen to grow.",
-      "No theorem can speak about the allocator; category `other` because the deciding part is a measurement. Trusted: the counting allocator wrapper, the synthetic "
-      "reader, the harness building main's buffering faithfully.",
-      "retained-state theorems on the Lean model + measured peak-heap growth test", "§4 C17")
+claim("C17", "proof",
+      "Theorems on GHOST-INSTRUMENTED copies of the statement-level loops (a `peak` accumulator over the sizes of the owned, growable buffers; ERASURE theorems show each instrumented function runs exactly the "
+      "frozen transcription that is proved equal to the model): -l ascending — the line buffer never exceeds the longest line (cutLinesForwardOnlyLoopI_peak_le), for every input; fast lane — the field-start vector never exceeds "
+      "delimiters-of-the-busiest-record + 2 and, with an early stop at field k, k + 1, the record buffer the longest record (readAndCutTextAsBytesLoopI_fields_le/_stop/_record_le); general engine, -c, --json, -e "
+      "(Props/Space2.lean) — bstr's assembly buffer ≤ longest record + 1, `fields` ≤ w + 2, `compressed_line_buf` ≤ len, the rewritten line ≤ w, unpacked / complemented bounds ≤ 2·B·(w+2), with w = len + (len+1)·|-r| and B the number of bounds "
+      "(readAndCutStrWholeI_cut_le / _bytes_le: every input, every segmentation into non-empty reads — independent of the NUMBER of records), the scratch vectors never accumulate across records (cutStrLitI_scratch); -M — the state that crosses a "
+      "fill_buf is a fixed tuple of four flags and four numbers of which the indexes are bounded by the chunk length (cutBytesStreamLoopI_ok, every segmentation); and `…_replicate`: k copies of a block of complete records have the peak of one. "
+      "What no theorem reaches — the allocator, Vec's capacity policy, the BufReader / BufWriter capacities fixed in main, the regex crate's caches, serde_json's per-field String, the stack — is MEASURED on every run: counting global allocator in the harness, "
+      "synthetic generator → engine (same 64 KiB buffers as main) → sink, peak live heap for N, 16N, 256N must stay within 64 KiB, every ascending -l request over sides {open,1,2,3} in every spelling, random option sets, a control that is SEEN to grow.",
+      "Level: the theorems bound the element counts of the buffers the transcribed code owns, not bytes handed out by the allocator; the statement's 'peak memory' is reached through the measurement. Trusted besides the usual: the counting allocator wrapper, the synthetic "
+      "reader, the harness building main's buffering faithfully; that the instrumentation points (after every clear / push / extend / read) are the places where the buffers change.",
+      "Lean 4 invariant theorems over ghost-instrumented transcriptions of the loops (erasure + peak bounds + replication) + measured peak-heap growth", "§4 C17")
 
 claim("C11", "proof",
       "Theorems (110+), for every input, with τ the transposition of LF and NUL and -z toggled: readAndCutStr_swap (general engine: -g -p -t -s -j -r -m, "
